@@ -91,7 +91,7 @@ class Run:
 
 
 def parse_log(path):
-    r = dict(io=[], api={}, sync={}, done=False, bail=None, masked={}, injected=None, hang_cleanup=False)
+    r = dict(io=[], api={}, sync={}, done=False, bail=None, masked={}, injected=None, hang_cleanup=False, hang=None)
     if not os.path.exists(path):
         return r
     for l in open(path, errors='replace'):
@@ -114,6 +114,8 @@ def parse_log(path):
             r['bail'] = int(t[1])
         elif t[0] == 'INJECTED':
             r['injected'] = int(t[1])
+        elif t[0] == 'HANG':
+            r['hang'] = int(t[1])
         elif t[0] == 'CLEANUP-HANG':
             r['hang_cleanup'] = True
         elif t[0] == 'DONE':
@@ -390,7 +392,7 @@ def run(ctx):
     plan = []
     seen = set()
     for p in positions:
-        rep = (CONFIGS[p['ci']][0], CONFIGS[p['ci']][1], tuple(sorted(CONFIGS[p['ci']][2].items())), p['rank'] == 0,
+        rep = (CONFIGS[p['ci']][1], 'PNETCDF_SAFE_MODE' in CONFIGS[p['ci']][2], p['rank'] == 0,
                tuple(p['stack']), p['api'], p['bytes'] == 0)
         first = rep not in seen
         seen.add(rep)
@@ -414,14 +416,12 @@ def run(ctx):
 
     def inject(it):
         p, f = it
-        to = max(10.0, 8 * base_wall[p['ci']])
-        r = run_harness(exe, wd, CONFIGS[p['ci']], f, timeout=to)
-        if r.rc == -9:
-            # a hang is an observation only if it is still one with three times the patience
-            r2 = run_harness(exe, wd, CONFIGS[p['ci']], f, timeout=3 * to)
-            r2.confirmed_hang = (r2.rc == -9)
-            return r2
-        return r
+        # per-API-call watchdog inside the harness (independent of MPI start-up time), relative to what
+        # the whole unfaulted program needs on this machine now; the outer timeout is only a backstop
+        alarm = int(max(4, 3 * base_wall[p['ci']]))
+        cfg = CONFIGS[p['ci']]
+        return run_harness(exe, wd, (cfg[0], cfg[1], _m(cfg[2], {'C11_API_ALARM': str(alarm)})), f,
+                           timeout=60 + 20 * alarm)
     with ThreadPoolExecutor(max_workers=jobs) as ex:
         results = list(ex.map(inject, plan))
 
@@ -453,7 +453,7 @@ def run(ctx):
         stats['nprocs'][str(cfg[1])] = stats['nprocs'].get(str(cfg[1]), 0) + 1
         hit = [io for io in lf['io'] if io['hit']]
         n_own = len(p['stack']) + 1           # frames inside the binary (library + harness caller); libc frames move (ASLR)
-        if not hit and r.rc == -9:
+        if not hit and (r.rc == -9 or any(l['hang'] is not None for l in r.logs)):
             # the watchdog fired before the program reached the call (machine overloaded): no observation
             stats['inconclusive_timeout'] += 1
             ctx.count(json.dumps(case, sort_keys=True), nontrivial=False)
@@ -471,7 +471,7 @@ def run(ctx):
         t['apis'].add(p['api'])
         # --- termination: who came back from API call `seq`
         returned = [k for k, l in enumerate(r.logs) if seq in l['api']]
-        hung = (r.rc == -9)
+        hung = (r.rc == -9) or any(l['hang'] is not None for l in r.logs)
         if f['rank'] not in returned and not hung:
             stats['crashed'] += 1
             t['obs'].add('CRASH')
@@ -582,10 +582,10 @@ def replay(ctx, d):
     if 'scenario' not in d:
         print('nothing to replay (no failing input in this record):', d.get('what'))
         return 0
-    cfg = (d['scenario'], d['np'], d['env'])
+    cfg = (d['scenario'], d['np'], _m(d['env'], {'C11_API_ALARM': '8'}))
     r = run_harness(exe, wd, cfg, dict(rank=d['rank'], index=d['index'], cls=d['cls'], perform=d['perform']), timeout=30)
     for k, l in enumerate(r.logs):
-        print('rank', k, 'done' if l['done'] else 'NOT DONE', 'api:', {s: v for s, v in sorted(l['api'].items())},
+        print('rank', k, 'done' if l['done'] else 'NOT DONE', ('HANG in call %d' % l['hang']) if l['hang'] is not None else '', 'api:', {s: v for s, v in sorted(l['api'].items())},
               'faulted call:', [io for io in l['io'] if io['hit']])
     lf = r.logs[d['rank']]
     hit = [io for io in lf['io'] if io['hit']]
@@ -716,6 +716,16 @@ def regen(lib=None):
             'thm C11_hypothesis_satisfiable mpi2nc_hypothesis_satisfiable',
             'thm C11_on_path_inhabited on_path_inhabited']
     verdict = {}
+    # one closure certificate per function that contains an I/O site
+    for f in sorted(set(s['func'] for s in io)):
+        fid = re.sub(r'[^A-Za-z0-9_]', '_', f)
+        o.append('Lemma up_closed_%s : up_closed link_sites "%s" (up_set "%s") = true.' % (fid, f, f))
+        o.append('Proof. vm_compute. reflexivity. Qed.')
+        if not any(byid[b]['callee'] in reach_up(f) for b in bad):
+            o.append('Lemma no_bad_link_above_%s :' % fid)
+            o.append('  forallb (fun l => negb (str_mem (s_callee l) (up_set "%s")) || negb (str_mem (s_id l) bad_link_ids)) link_sites = true.' % f)
+            o.append('Proof. vm_compute. reflexivity. Qed.')
+        o.append('')
     for s in io:
         sid = s['id']
         nm = _ident(sid)
@@ -726,7 +736,8 @@ def regen(lib=None):
         verdict[sid] = dict(dropped=dropped.get(sid, []), bad_links_above=badup)
         if not D and not badup:
             o.append('Lemma nsd_%s : no_silent_drop link_sites %s.' % (nm, S))
-            o.append('Proof. apply (no_silent_drop_intro _ (reach_up link_sites (s_func %s))); vm_compute; reflexivity. Qed.\n' % S)
+            fid = re.sub(r'[^A-Za-z0-9_]', '_', s['func'])
+            o.append('Proof.\n  apply (no_silent_drop_intro %s (up_set "%s")); [vm_compute; reflexivity | exact up_closed_%s | exact no_bad_link_above_%s].\nQed.\n' % (S, s['func'], fid, fid))
             spec.append('thm no_silent_drop_%s nsd_%s' % (nm, nm))
             continue
         o.append('Lemma nsd_%s_refuted : ~ no_silent_drop link_sites %s.' % (nm, S))
@@ -750,7 +761,8 @@ def regen(lib=None):
             o.append('Proof. apply no_silent_drop_except_intro; vm_compute; reflexivity. Qed.\n')
         else:
             o.append('Lemma nsd_%s_partial : no_silent_drop_except link_sites %s [%s] [].' % (nm, S, '; '.join(D)))
-            o.append('Proof. apply (no_silent_drop_except_nolinks_intro _ _ (reach_up link_sites (s_func %s))); vm_compute; reflexivity. Qed.\n' % S)
+            fid = re.sub(r'[^A-Za-z0-9_]', '_', s['func'])
+            o.append('Proof.\n  apply (no_silent_drop_except_nolinks_intro %s [%s] (up_set "%s")); [vm_compute; reflexivity | exact up_closed_%s | exact no_bad_link_above_%s].\nQed.\n' % (S, '; '.join(D), s['func'], fid, fid))
         spec.append('thm no_silent_drop_%s_partial nsd_%s_partial' % (nm, nm))
     # ---- chains
     ctext = re.search(r'Definition chains : list \(string \* list string\) :=\s*\[(.*?)\]\.\s*\n\s*\(\* the link sites of one hop',
